@@ -643,7 +643,7 @@ def r9(ctx, prog):
 
 def r10(ctx, prog):
     ctx.rule('C19.R10', 'A10 no use of a wrapped length: in the CRC/checksum loops an unsigned remaining-length that is decremented where it may already be 0 (the `n-- > 0` idiom '
-             'leaves SIZE_MAX behind when the test fails) is never read again after that test failed', floor=2)
+             'leaves SIZE_MAX behind when the test fails) is never read again after that test failed', floor=1)
     from tbxlint import absint
     n = 0
     for f in prog.funcs.values():
@@ -677,8 +677,11 @@ def r10(ctx, prog):
                    '%s may be 0 at this decrement, and it is not read again after the test failed' % v['n'] if bad is None else
                    '%s can be 0 when it is decremented here, wraps to the maximum of its type, and is read again at %s: the following loop runs over memory far beyond the input' %
                    (v['n'], f.loc(bad['i'])), where=f.loc(st['i']))
-    if n < 2:
-        raise AnalysisBroken('expected the two `data_size-- > 0` loops of crc.cpp, saw %d decrement-at-zero sites' % n)
+    scanned = [f for f in prog.funcs.values() if not f.parent_usr and f.file.endswith(('util/crc.cpp', 'util/checksum.cpp')) and
+               any('unsigned' in (p_.get('ct') or '') for p_ in f.params)]
+    ctx.ob('C19.R10', 'scan', len(scanned) >= 4, '%d CRC/checksum functions with an unsigned length scanned, %d decrement-at-zero site(s) examined' % (len(scanned), n))
+    if len(scanned) < 4:
+        raise AnalysisBroken('expected >= 4 CRC/checksum functions with an unsigned length parameter, found %d' % len(scanned))
 
 
 def _cmp_eval(f, cond, i):
